@@ -34,9 +34,10 @@ def _logb(rng):
 def pick_sos(rng, V, kind):
     if kind == "sos_in_vocab":
         return rng.randrange(V)
+    # values that alias an in-vocabulary id modulo 256 / 65536 (narrow id storage) included
     if kind == "sos_negative":
-        return rng.choice([-1, -1, -7])
-    return rng.choice([V, V, V + 3, 1000])
+        return rng.choice([-1, -1, -7, -256, -255, -65536 + rng.randrange(V)])
+    return rng.choice([V, V, V + 3, 1000, 256, 256 + rng.randrange(V), 512, 65536 + rng.randrange(V)])
 
 
 def sample_keys(rng, symbols, n, count):
